@@ -106,8 +106,8 @@ impl Scenario for ReadScenario {
 
     fn runs(&self, tier: Tier) -> u64 {
         match tier {
-            Tier::Quick => 20_000,
-            Tier::Thorough => 400_000,
+            Tier::Quick => 60_000,
+            Tier::Thorough => 1_600_000,
         }
     }
 
